@@ -203,7 +203,7 @@ def charged(e0, e1, k):
     return z3.And(z3.Select(m1.present, k), z3.UGE(b1.f[2], 1), z3.ULE(b1.f[2], maxr), z3.Or(z3.And(pres0, b1.f[2] == b0.f[2] + 1), b1.f[2] == 1))
 
 
-def build_engine_key(ck, window_s, src, obs=None):
+def build_engine_key(ck, window_s, src, obs=None, contract=True):
     eng = ck.engine() if obs is None else ck.meta_engine()
     maxr, burst = src.bv("cfg.max", 32), src.bv("cfg.burst", 32)
     key = src.bytes("key", 16)
@@ -221,7 +221,8 @@ def build_engine_key(ck, window_s, src, obs=None):
         re_, rk = eng.alloc(st, e), eng.alloc(st, key)
         st.clock = prev
         eng.clock_readings = []
-        install_bucket_contract(ck, eng)
+        if contract:
+            install_bucket_contract(ck, eng)
         st2, ret = eng.call(ck.fn(r"rate_limit::<impl at [^>]*>::try_consume_key$"), [re_, rk], st)
         e2 = eng.load(st2, re_)
         now, ph = pin_clock(src, eng, st2)
@@ -257,7 +258,7 @@ def mask(ipbv, keep_bytes, total_bytes):
 ENG = [("e64", 3600, 128), ("e48", 3600, 128), ("e24", 3600, 32), ("eg", 60, 8)]
 
 
-def build_join_step(ck, v6, src, obs=None):
+def build_join_step(ck, v6, src, obs=None, contract=True):
     eng = ck.engine() if obs is None else ck.meta_engine()
     cfg5 = [src.bv(n, 32) for n in ("cfg.per64", "cfg.per48", "cfg.per24", "cfg.gmax", "cfg.gburst")]
     ipb = src.bytes("ip", 16 if v6 else 4)
@@ -287,7 +288,8 @@ def build_join_step(ck, v6, src, obs=None):
         rl, rip = eng.alloc(st, L), eng.alloc(st, ip)
         st.clock = prev
         eng.clock_readings = []
-        install_bucket_contract(ck, eng)
+        if contract:
+            install_bucket_contract(ck, eng)
         st2, ret = eng.call(ck.fn(r"rate_limit::<impl at [^>]*>::check_join_allowed$"), [rl, rip], st)
         L2 = eng.load(st2, rl)
         E1 = {"e64": L2.f[1], "e48": L2.f[2], "e24": L2.f[3], "eg": L2.f[4]}
@@ -368,8 +370,23 @@ def register(ck, tag, driver, params, builder):
     rp = harness.make_replayer(ck, "rate_limit", driver, lambda s, obs: builder(s, obs), params, race_driver=("engine_key_race" if driver not in ("bucket_step", "limiter_new") else None))
     ck.register_src(driver, params, src)
     prefs = clock_freeze_pref(R["eng"])
+    precise = {}
+
+    def refine_for(g):
+        """the same obligation with Bucket::try_consume executed on its real body instead of its contract (built on demand, once)"""
+        if driver not in ("engine_key", "join_step"):
+            return None
+
+        def mk():
+            if "R" not in precise:
+                precise["R"] = builder(Src(), None, contract=False)
+            R2 = precise["R"]
+            return {"formulas": list(R2["eng"].assumptions) + list(R2["hyps"]) + [z3.Not(R2["goals"][g])], "prefer": clock_freeze_pref(R2["eng"])}
+
+        return mk
+
     for g, f in R["goals"].items():
-        ck.prove(f"{tag}/{g}", R["eng"], R["hyps"], f, on_sat=rp, meta={"goal": g, "prefer": prefs})
+        ck.prove(f"{tag}/{g}", R["eng"], R["hyps"], f, on_sat=rp, meta={"goal": g, "prefer": prefs, "refine": refine_for(g)})
     for g, f in R["reach"].items():
         ck.reach(f"{tag}/{g}", R["eng"], R["hyps"], f)
     ck.side(f"{tag}/side", R["eng"], R["hyps"], on_sat=rp)
@@ -384,8 +401,8 @@ def builder_for(ck, driver, params):
     if driver == "bucket_step":
         return lambda s, obs: build_bucket_step(ck, params["window_s"], s, obs)
     if driver == "engine_key":
-        return lambda s, obs: build_engine_key(ck, params["window_s"], s, obs)
-    return lambda s, obs: build_join_step(ck, params["v6"], s, obs)
+        return lambda s, obs, contract=True: build_engine_key(ck, params["window_s"], s, obs, contract)
+    return lambda s, obs, contract=True: build_join_step(ck, params["v6"], s, obs, contract)
 
 
 def run(tier):
